@@ -20,6 +20,7 @@ type c19Case struct {
 	K       int    `json:"k"`
 	Sends   []int  `json:"sends,omitempty"` // ms since CONNACK
 	What    []int  `json:"what,omitempty"`  // 0 PINGREQ, 1 PUBLISH qos0, 2 SUBSCRIBE
+	Frag    bool   `json:"frag,omitempty"`  // PINGREQs only, every segment ends in the MIDDLE of a packet: "C0", then "00 C0" at each send time
 	Horizon int    `json:"horizon"`
 	CT      int    `json:"ct,omitempty"`
 }
@@ -74,6 +75,9 @@ func (p *c19Prop) Gen(r *Rng, i int, tier string) interface{} {
 		t += gap
 		c.Sends = append(c.Sends, t)
 		c.What = append(c.What, r.Intn(3))
+	}
+	if len(c.Sends) > 0 && r.Chance(25) {
+		c.Frag = true
 	}
 	c.Horizon = t + d*1000 + 2500
 	if ke == 0 {
@@ -153,13 +157,19 @@ func (p *c19Prop) Run(ci interface{}) interface{} {
 		return obs
 	}
 	a := cl.Auto(false)
+	if c.Frag {
+		_ = a.SendRaw([]byte{0xC0})
+	}
 	for j, at := range c.Sends {
 		time.Sleep(time.Until(t0.Add(time.Duration(at) * time.Millisecond)))
 		sentAt := int(time.Since(t0) / time.Millisecond)
-		switch c.What[j] {
-		case 0:
+		switch what := c.What[j]; {
+		case c.Frag:
+			// completes one PINGREQ and starts the next: the broker's reader never sees its buffer empty at a packet boundary
+			_ = a.SendRaw([]byte{0x00, 0xC0})
+		case what == 0:
 			_ = a.Send(mqttp.NewPingReq(mqttp.ProtocolV311))
-		case 1:
+		case what == 1:
 			_ = a.Send(mkPublish(mqttp.ProtocolV311, "k/x", []byte{2}, 0, false, 0))
 		default:
 			_ = a.Send(mkSubscribe(mqttp.ProtocolV311, uint16(j+1), []string{"k/y"}, []byte{0}))
@@ -208,6 +218,9 @@ func (p *c19Prop) Class(ci interface{}, oi interface{}) (string, bool) {
 	}
 	if len(c.Sends) > 0 {
 		l += "+traffic"
+	}
+	if c.Frag {
+		l += "+fragmented"
 	}
 	return l, true
 }
